@@ -1144,6 +1144,14 @@ pub fn replay(a: &Args, rec: &serde_json::Value) -> Report {
                 }
             }
         }
+        "c13cb" => {
+            let c: crate::fragments::FragCase = serde_json::from_value(r["case"].clone()).expect("case");
+            if let Some(v) = crate::fragments::eval(&c) {
+                if v.tag == tag {
+                    rep.violations.push(v);
+                }
+            }
+        }
         k => panic!("unknown replay kind {k}"),
     }
     rep
@@ -1282,6 +1290,9 @@ pub fn probe_emit(a: &Args) {
         "#[derive(Logos, Debug, PartialEq)] #[logos(skip \" \", utf8 = false)] pub enum T { #[token(b\"\\xff\")] F, #[regex(b\"[a-z]+\", priority = 3, ignore(case))] W }",
         "#[derive(Logos, Debug, PartialEq)] #[logos(subpattern d = \"[0-9]\", skip(\" +\", priority = 9))] pub enum T { #[regex(\"(?&d)+\", ignore(case), priority = 4)] N, #[token(\"x\", ignore(case), priority = 10)] X }",
         "#[derive(Logos, Debug, PartialEq, Clone, Default)] pub enum E { #[default] D } #[derive(Logos, Debug, PartialEq)] #[logos(error(E, callback = |lex| E::D))] pub enum T { #[token(\"a\")] A }",
+        // inline callbacks whose body is a tuple, an array, or starts with a parenthesised / bracketed operand
+        "#[derive(Logos, Debug, PartialEq)] pub enum T { #[regex(\"[a-z]+\", |lex| (lex.slice().len(), 1u8))] W((usize, u8)), #[regex(\"[0-9]+\", |lex| [lex.slice().len() as u8; 2])] N([u8; 2]), #[regex(\"=+\", |lex| (lex.slice().len() as u32).pow(2) + 1)] E(u32), #[regex(\"-+\", callback = |lex| [1usize, 2][0] + lex.slice().len())] M(usize), #[regex(\"_+\", |l| (l.slice().len() > 1) && true)] U }",
+        "#[derive(Debug, PartialEq, Clone, Default)] pub struct E(usize, usize); #[derive(Logos, Debug, PartialEq)] #[logos(error(E, callback = |lex| (|s: core::ops::Range<usize>| E(s.start, s.end))(lex.span())))] #[logos(skip(\" +\", |lex| (lex.slice().len() > 0).then_some(()).ok_or(E(0, 0))))] pub enum T { #[token(\"a\")] A }",
     ];
     for (k, e) in extras.iter().enumerate() {
         let _ = writeln!(good, "pub mod x{k} {{\n    use logos::Logos;\n    {e}\n}}");
